@@ -26,7 +26,14 @@ type GenResult struct {
 	Stderr string
 	Files  []string // declaration files passed in this invocation
 	Dur    time.Duration
+	TimedOut bool          // still running at CLITimeout (it was sent SIGQUIT: Stderr carries the goroutine stacks)
+	CPU      time.Duration // processor time it had consumed
 }
+
+// CLITimeout bounds one generator run (a run needs well under a second of
+// processor time). What an expiry means is decided from the processor time
+// the process consumed, not from the wall clock: see checks.hangVerdict.
+const CLITimeout = 3 * time.Minute
 
 type Prog struct {
 	Spec     *spec.Spec
@@ -166,8 +173,8 @@ func (w *Workspace) GenerateOne(p *Prog, oneInvocation bool) {
 		}
 	}
 	for _, inv := range invs {
-		r := base.Cmd{Dir: p.Dir, Name: w.CLI, Args: inv, Timeout: 5 * time.Minute}.Run()
-		p.Gen = append(p.Gen, GenResult{Exit: r.Exit, Stderr: r.Stderr, Files: inv, Dur: r.Dur})
+		r := base.Cmd{Dir: p.Dir, Name: w.CLI, Args: inv, Timeout: CLITimeout, DumpOnTimeout: true}.Run()
+		p.Gen = append(p.Gen, GenResult{Exit: r.Exit, Stderr: r.Stderr, Files: inv, Dur: r.Dur, TimedOut: r.TimedOut, CPU: r.CPU})
 		if r.Exit != 0 {
 			p.GenOK = false
 		}
@@ -194,9 +201,9 @@ func (w *Workspace) GenerateTogether(a, b *Prog) {
 			args = append(args, filepath.Join("progs", p.Spec.Name, f))
 		}
 	}
-	r := base.Cmd{Dir: w.Root, Name: w.CLI, Args: args, Timeout: 5 * time.Minute}.Run()
+	r := base.Cmd{Dir: w.Root, Name: w.CLI, Args: args, Timeout: CLITimeout, DumpOnTimeout: true}.Run()
 	for _, p := range []*Prog{a, b} {
-		p.Gen = append(p.Gen, GenResult{Exit: r.Exit, Stderr: r.Stderr, Files: args, Dur: r.Dur})
+		p.Gen = append(p.Gen, GenResult{Exit: r.Exit, Stderr: r.Stderr, Files: args, Dur: r.Dur, TimedOut: r.TimedOut, CPU: r.CPU})
 		if r.Exit != 0 {
 			p.GenOK = false
 		}
